@@ -1227,7 +1227,13 @@ def _opposite(distance: float, opposite: Callable[[object, object], float], val1
     """
     if distance > 0.0:
         return 0.0
-    return opposite(val1, val2) or 1.0
+    try:
+        return opposite(val1, val2) or 1.0
+    except Exception:  # noqa: BLE001
+        # The code under test never evaluates the negated comparison; it is only
+        # guidance and must not raise into the code under test (e.g. a class that
+        # defines __lt__ but not __le__).
+        return 1.0
 
 
 _P = ParamSpec("_P")
